@@ -90,7 +90,10 @@ func (FixedWindow) New(cfg Config) fiber.Handler {
 			// Lock entry
 			mux.Lock()
 			e = manager.get(key)
-			e.currHits--
+			// Only give the hit back to the window it was counted in
+			if e.exp == ts+resetInSec {
+				e.currHits--
+			}
 			remaining++
 			manager.set(key, e, cfg.Expiration)
 			// Unlock entry
